@@ -23,6 +23,15 @@ def norm(t):
     return t
 
 
+def neg(c):
+    """logical negation in normal form: !!c == c, !(true) == false"""
+    if isinstance(c, tuple) and c and c[0] == 'not':
+        return c[1]
+    if isinstance(c, tuple) and c and c[0] == 'const' and c[1] in (0, 1, True, False):
+        return ('const', 0 if c[1] else 1)
+    return ('not', c)
+
+
 def show(t):
     if t is None:
         return '-'
@@ -124,7 +133,7 @@ class Summariser:
                 pt = p.fork()
                 pt.cond.append(c)
                 pf = p
-                pf.cond.append(('not', c))
+                pf.cond.append(neg(c))
                 rt = self.stmt(fn, n['then'], [pt])
                 rf = self.stmt(fn, n['else'], [pf]) if 'else' in n else [pf]
                 out += rt + rf
@@ -254,7 +263,7 @@ class Summariser:
                 self.write(fn, lvl, new, p)
                 return old if n.get('post') else new
             if op == '!':
-                return ('not', self.expr(fn, a, p))
+                return neg(self.expr(fn, a, p))
             if op in ('*', '&'):
                 return self.expr(fn, a, p)
             raise Unrecognised('unary %s at %s' % (op, fn.loc(n)))
